@@ -1,6 +1,7 @@
 import CopVerif.Base.FloatIO
 import CopVerif.Model.Vine
 import CopVerif.Gen.Bivariate
+import CopVerif.Gen.VineBuild
 /-!
   Driver commands for the vine structure model (property C16), evaluated with `α := Float`.
 
@@ -18,6 +19,8 @@ import CopVerif.Gen.Bivariate
   * `cc <level> EDGE EDGE` → `ok <b>` (`_check_constraint`); `adj EDGE EDGE` → `ok <b>`
     (`is_adjacent`); `sortedge EDGE EDGE` → `ok 0 1 | ok 1 0` (`Edge.sort_edge` as positions).
   * `theta <family 0|1|2> <float>` → `ok <b>`: `check_theta` of the generated class tables.
+  * `gtrain`, `gident`, `gcc`, `gadj`, `gsortedge`: the same requests answered from the GENERATED
+    definitions (`CopVerif/Gen/VineBuild.lean`, regenerated from tree.py / vine.py on every run).
 -/
 namespace CopVerif.Driver.Vine
 open CopVerif CopVerif.IO CopVerif.Model.Vine
@@ -133,6 +136,26 @@ def vine (ws : List String) : String :=
     run (do let p ← edge false; let q ← edge false; pure (p, q)) rest fun (p, q) =>
       let r := sortPair p q 0 1
       s!"ok {r.1} {r.2}"
+  | "gtrain" :: rest =>
+    run (do let vt ← vtype; let d ← nat; let t ← nat; let m ← nat; let cs ← rep choice m
+            pure (vt, d, t, cs)) rest fun (vt, d, t, cs) =>
+      match Gen.VineBuild.trainVineGen vt d t cs with
+      | .ok trees => " ".intercalate ("ok" :: toString trees.length :: trees.map showTree)
+      | .error e => "err " ++ e.toString
+  | "gident" :: rest =>
+    run (do let p ← edge false; let q ← edge false; pure (p, q)) rest fun (p, q) =>
+      match Gen.VineBuild.identifyEdsIng p q with
+      | .ok (l, r, D) => s!"ok {showEdge { L := l, R := r, D := D, parents := none }}"
+      | .error e => "err " ++ e.toString
+  | "gcc" :: rest =>
+    run (do let lv ← nat; let p ← edge false; let q ← edge false; pure (lv, p, q)) rest
+      fun (lv, p, q) => "ok " ++ b01 (Gen.VineBuild.checkConstraintPy lv p q)
+  | "gadj" :: rest =>
+    run (do let p ← edge false; let q ← edge false; pure (p, q)) rest fun (p, q) =>
+      "ok " ++ b01 (Gen.VineBuild.isAdjacentPy p q)
+  | "gsortedge" :: rest =>
+    run (do let p ← edge false; let q ← edge false; pure (p, q)) rest fun (p, q) =>
+      if Gen.VineBuild.sorted2Swaps Gen.VineBuild.sortEdgeKey p q then "ok 1 0" else "ok 0 1"
   | "neighbors" :: rest =>
     run tree rest fun t => "ok " ++ " | ".intercalate ((neighbors t).map showNats)
   | "theta" :: rest =>
